@@ -375,6 +375,15 @@ func (g *gen) fileProg() []byte {
 		parts = append(parts, moov, mdat)
 	}
 	parts = g.topJunk("prog", parts)
+	// an extra EMPTY mdat box (8- or 16-byte header) next to the real one is legal and accepted by the library
+	if len(media) > 0 && g.pct("prog:emptymdat", 12) {
+		empty := []byte{0, 0, 0, 8, 'm', 'd', 'a', 't'}
+		if g.pct("prog:emptymdat-large", 50) {
+			empty = []byte{0, 0, 0, 1, 'm', 'd', 'a', 't', 0, 0, 0, 0, 0, 0, 0, 16}
+		}
+		at := g.rng("prog:emptymdat-at", 1, len(parts))
+		parts = append(parts[:at], append([][]byte{empty}, parts[at:]...)...)
+	}
 	var out []byte
 	moovAt, mdatAt := -1, -1
 	for _, p := range parts {
@@ -382,7 +391,9 @@ func (g *gen) fileProg() []byte {
 		case "moov":
 			moovAt = len(out)
 		case "mdat":
-			mdatAt = len(out)
+			if &p[0] == &mdat[0] { // the real one, not an extra empty box
+				mdatAt = len(out)
+			}
 		}
 		out = append(out, p...)
 	}
